@@ -37,6 +37,7 @@ type CrashCase struct {
 	Prior bool `json:"prior,omitempty"` // an earlier successful run exists
 	K     int  `json:"k,omitempty"`     // kill point (0: drawn / all)
 	Picks []int `json:"picks,omitempty"`
+	Tail  int   `json:"tail,omitempty"` // >0: the Tail-th call from the end of the run (1 = the last one)
 }
 
 func crashDef(shape int, work string) (string, []string) {
@@ -124,6 +125,10 @@ func checkCrash(t rep.Fataler, c CrashCase) {
 	switch {
 	case c.K > 0:
 		ks = []int{c.K}
+	case c.Tail > 0:
+		if K-c.Tail+1 >= 1 {
+			ks = []int{K - c.Tail + 1}
+		}
 	case rep.Thorough():
 		for k := 1; k <= K; k++ {
 			ks = append(ks, k)
@@ -152,7 +157,7 @@ func checkCrash(t rep.Fataler, c CrashCase) {
 			continue
 		}
 		call := dry.Calls[k-1]
-		h, r, file, markers := crashRun(t, &c, k, false)
+		h, r, file, markers := crashRun(t, &c, k, true)
 		func() {
 			defer h.Cleanup()
 			defer func() {
@@ -198,8 +203,15 @@ func checkCrash(t rep.Fataler, c CrashCase) {
 			// a run that has been on record does not vanish: once one of its statuses
 			// had been written in full (a completed write to its history file comes
 			// before the kill point), the history shows this run next to the earlier one
+			// (read off the killed run's OWN call log — the threads of the real
+			// binary do not reach their calls in the same order in every run; the
+			// last logged call is the one at whose entry the process was killed)
 			recorded := false
-			for _, pc := range dry.Calls[:k-1] {
+			done := r.Calls
+			if len(done) > 0 {
+				done = done[:len(done)-1]
+			}
+			for _, pc := range done {
 				if pc.Name == "write" && strings.Contains(pc.Detail, ".dat") && strings.Contains(pc.Detail, "/data/") && !strings.Contains(pc.Detail, "len=0") {
 					recorded = true
 				}
@@ -308,6 +320,12 @@ func TestCrash(t *testing.T) {
 		}
 		checkCrash(t, c)
 	})
+	// the shutdown of a run, call by call: across the 16 shards each of its last
+	// 16 calls is a kill point once in every run of the check
+	if !rep.Thorough() {
+		shard := rep.EnvInt("VERIF_SHARD", 0)
+		checkCrash(t, CrashCase{Shape: (shard + rep.EnvInt("VERIF_SEED", 1)) % 3, Prior: shard%2 == 0, Tail: shard%16 + 1})
+	}
 }
 
 func TestReplay(t *testing.T) {
